@@ -17,7 +17,8 @@ def table():
     desc = json.load(open(os.path.join(ROOT, "tools", "seeded_desc.json")))
     mpath = os.path.join(ROOT, "seeded", "MATRIX.json")
     matrix = json.load(open(mpath)) if os.path.exists(mpath) else {}
-    ids = sorted(d for d in os.listdir(os.path.join(ROOT, "seeded")) if os.path.isdir(os.path.join(ROOT, "seeded", d)))
+    ids = sorted((d for d in os.listdir(os.path.join(ROOT, "seeded")) if os.path.isdir(os.path.join(ROOT, "seeded", d))),
+                 key=lambda d: (d.split("-")[0], int(d.split("-")[1])))
     lines = ["| id | change | needs | caught by (quick tier, correspondence only) |", "|---|---|---|---|"]
     for sid in ids:
         what, needs = desc.get(sid, ["?", "?"])
